@@ -442,25 +442,28 @@ func genC03(t *rapid.T) c03Case {
 		}
 		p.Key = where + name
 	case "devices":
-		src := rapid.SampledFrom([]string{"/dev/ttyUSB0", "/dev/sda", "/dev/fuse"}).Draw(t, "src")
-		dst, perm := "", ""
-		short := src
-		if rapid.Bool().Draw(t, "hasdst") {
-			dst = rapid.SampledFrom([]string{"/dev/ttyUSB1", "/dev/xvda"}).Draw(t, "dst")
-			short += ":" + dst
-			if rapid.Bool().Draw(t, "hasperm") {
-				perm = rapid.SampledFrom([]string{"r", "rw", "rwm", "m"}).Draw(t, "perm")
-				short += ":" + perm
+		n := rapid.IntRange(1, 3).Draw(t, "ndev")
+		var shorts, longs []any
+		srcs := []string{"/dev/ttyUSB0", "/dev/sda", "/dev/fuse"}
+		perm := rapid.SampledFrom([]string{"", "r", "rw", "rwm", "m"}).Draw(t, "perm")
+		for i := 0; i < n; i++ {
+			src := srcs[i]
+			short := src
+			long := map[string]any{"source": src, "target": src, "permissions": "rwm"}
+			if perm != "" || rapid.Bool().Draw(t, "hasdst") {
+				dst := fmt.Sprintf("/dev/target%d", i)
+				short += ":" + dst
+				long["target"] = dst
+				if perm != "" {
+					// several devices may share the same permissions and differ only in their target
+					short += ":" + perm
+					long["permissions"] = perm
+				}
 			}
+			shorts = append(shorts, short)
+			longs = append(longs, long)
 		}
-		long := map[string]any{"source": src, "target": src, "permissions": "rwm"}
-		if dst != "" {
-			long["target"] = dst
-		}
-		if perm != "" {
-			long["permissions"] = perm
-		}
-		p.Path, p.Short, p.Long, p.Key = []string{"devices"}, []any{short}, []any{long}, short
+		p.Path, p.Short, p.Long, p.Key = []string{"devices"}, shorts, longs, fmt.Sprint(shorts)
 	case "build":
 		ctx := rapid.SampledFrom([]string{".", "./dir", "../sibling", "/abs/ctx", "https://github.com/x/y.git", "dir"}).Draw(t, "ctx")
 		p.Path, p.Short, p.Long, p.Key = []string{"build"}, ctx, map[string]any{"context": ctx}, ctx
